@@ -109,6 +109,15 @@ fn case(item: u64, rng: &mut Rng, acc: &mut Acc, quick: bool, light: bool) {
         }
         if h % 7 == 0 {
             let i = rng.below(pts.len());
+            // the SAME point first with other edge data and other settings (a cache keyed on the
+            // point alone, or on the previous call, would now serve a stale result)
+            let _ = su.sampler.sample::<f64>(&pts[i], &other_kin.masses, &other_kin.shifts, &Settings { stability: None, debug: h % 14 == 0, metadata: h % 21 != 0 });
+            if h % 3 == 0 {
+                let mut shifted = pts[i].clone();
+                let last = shifted.len() - 1;
+                shifted[last] = rng.fo();
+                let _ = su.sampler.sample::<f64>(&shifted, masses, shifts, &Settings::meta());
+            }
             let st = Settings { stability: if i % 3 == 0 { Some(1e-6) } else { None }, debug: false, metadata: true };
             let d = hash_u64s(&result_bits(&su.sampler.sample::<f64>(&pts[i], masses, shifts, &st)));
             acc.count("history_probe_comparisons");
